@@ -5,6 +5,9 @@ import glob, json, os, subprocess, sys
 V = os.path.dirname(os.path.dirname(os.path.abspath(__file__)))
 names = sys.argv[1:] or [os.path.basename(d) for d in sorted(glob.glob(os.path.join(V, "seeded", "C*-*")))]
 for n in names:
+    forced = None
+    if ":" in n:
+        n, forced = n.split(":")
     d = os.path.join(V, "seeded", n)
     m = json.load(open(os.path.join(d, "meta.json")))
     own = n.split("-")[0]
@@ -12,6 +15,8 @@ for n in names:
     prev.update({k: v for k, v in m.get("checks_final", {}).items() if k.startswith("C")})
     # the property the change is filed under, plus (if that one stayed quiet before) one check that caught it
     props = [own] + ([p for p, v in prev.items() if p != own and str(v).startswith("CAUGHT")][:1] if not str(prev.get(own, "")).startswith("CAUGHT") else [])
+    if forced:
+        props = forced.split(",")
     r = subprocess.run([os.path.join(V, "tools", "mutant_run.py"), "--patch", os.path.join(d, "patch.diff"), "--props", ",".join(props)], capture_output=True, text=True)
     res = {}
     for l in r.stdout.splitlines():
@@ -19,6 +24,8 @@ for n in names:
             res[l.split(":")[0]] = l.split(":", 1)[1].strip()[:200]
         if l.startswith("APPLY-FAILED"):
             res["apply"] = "patch no longer applies to /repo HEAD (the repository was repaired at that place after the change was written)"
+    if forced and isinstance(m.get("checks_final"), dict):
+        merged = dict(m["checks_final"]); merged.update(res); res = merged
     m["checks_final"] = res
     json.dump(m, open(os.path.join(d, "meta.json"), "w"), indent=1)
     print(n, {k: v.split(" ")[0] for k, v in res.items()}, flush=True)
